@@ -19,6 +19,88 @@ def run(ctx: Ctx) -> None:
     extra(ctx)
 
 
+def builtin_geometry(ctx: Ctx) -> None:
+    """Shapes that define their own projection geometry (spheres): built, optionally PLACED by the library's transformations
+    or copied, then written. Every label a face is projected to is defined in the geometry section, and the sphere defined
+    there is the sphere the projected faces' vertices lie on (Render.tla C06_geometry_defined on the abstracted file)."""
+    import os
+    import random
+    import re
+
+    import classy_blocks as cb
+
+    from .. import bmd
+    from ..renderlib import vadd, vdist, vmul
+    from .c07 import rot, scl
+
+    rng = random.Random(ctx.seed + 606)
+    for i in range(12 if ctx.tier == "quick" else 150):
+        kind = rng.choice(["Hemisphere", "EighthSphere"])
+        c0 = [rng.uniform(-3, 3) for _ in range(3)]
+        r0 = rng.uniform(0.5, 3.0)
+        steps = [rng.choice(["translate", "rotate", "scale", "copy"]) for _ in range(rng.choice([0, 1, 1, 2, 3]))]
+        centre, radius = list(c0), r0
+        try:
+            if kind == "Hemisphere":
+                shape = cb.Hemisphere(c0, vadd(c0, [r0, 0, 0]), [0, 0, 1])
+            else:
+                from classy_blocks.construct.shapes.sphere import EighthSphere
+                shape = EighthSphere(c0, vadd(c0, [r0, 0, 0]), [0, 0, 1])
+            for st in steps:
+                if st == "translate":
+                    d = [rng.uniform(-4, 4) for _ in range(3)]
+                    shape.translate(d)
+                    centre = vadd(centre, d)
+                elif st == "rotate":
+                    a, ax, o = rng.uniform(-2, 2), [rng.uniform(-1, 1) for _ in range(3)], [rng.uniform(-2, 2) for _ in range(3)]
+                    shape.rotate(a, ax, o)
+                    centre = rot(centre, a, ax, o)
+                elif st == "scale":
+                    k, o = rng.choice([0.5, 2.0]), [rng.uniform(-2, 2) for _ in range(3)]
+                    shape.scale(k, o)
+                    centre, radius = scl(centre, k, o), radius * k
+                else:
+                    shape = shape.copy()
+            shape.chop_axial(count=2)
+            shape.chop_radial(count=2)
+            shape.chop_tangential(count=2)
+            mesh = cb.Mesh()
+            mesh.add(shape)
+            path = os.path.join(ctx.tmp, "sphere.bmd")
+            if os.path.exists(path):
+                os.remove(path)
+            mesh.write(path)
+            with open(path, encoding="utf-8") as f:
+                parsed = bmd.parse_blockmeshdict(f.read())
+        except Exception as err:  # pylint: disable=broad-except
+            ctx.violation(f"builtin-geometry:{kind}:raises:{type(err).__name__}", f"{kind} after {steps} could not be written: {err}", {"steps": steps})
+            continue
+        tag = "+".join(sorted(set(steps))) or "as-created"
+        ctx.evaluated(f"builtin:{kind}:{steps}:{i}")
+        used = {q["label"] for q in parsed["faces"]}
+        defined = parsed["geometry"]
+        if not used or not used <= set(defined):
+            ctx.violation(f"builtin-geometry:{kind}:undefined-label:{tag}", f"projected to {sorted(used)}, defined {sorted(defined)}", {"steps": steps})
+            continue
+        V = [list(v["p"]) for v in parsed["vertices"]]
+        for q in parsed["faces"]:
+            props = " ".join(defined[q["label"]])
+            m_c = re.search(r"centre\s*\(([^)]*)\)", props)
+            m_r = re.search(r"radius\s+([-+0-9.eE]+)", props)
+            if not (m_c and m_r):
+                ctx.violation(f"builtin-geometry:{kind}:unreadable:{tag}", f"geometry {q['label']}: {props}", {"steps": steps})
+                break
+            fc, fr = [float(x) for x in m_c.group(1).split()], float(m_r.group(1))
+            off = max(abs(vdist(V[i2], fc) - fr) for i2 in q["quad"])
+            if off > 1e-5 * radius or vdist(fc, centre) > 1e-5 * radius or abs(fr - radius) > 1e-5 * radius:
+                ctx.violation(f"builtin-geometry:{kind}:stale-sphere:{tag}",
+                              f"the sphere written for {q['label']} (centre {fc}, radius {fr}) is not the one its projected face lies on "
+                              f"(centre {centre}, radius {radius}; vertices off by {off:.3g})", {"steps": steps})
+                break
+        ctx.validated()
+
+
 def extra(ctx: Ctx) -> None:
+    builtin_geometry(ctx)
     # the repository's example scripts as recorded executions: File.tla well-formedness of every dictionary they write
     examples.judge_examples(ctx, "C06")
